@@ -1,4 +1,5 @@
 mod api;
+mod arith;
 mod gen;
 mod monitors;
 mod run;
@@ -290,6 +291,7 @@ fn main() {
     match cmd {
         "explore" => explore(&args),
         "replay" => replay(&args),
+        "arith" => arith::main(&args),
         "seq" => seq::main(&args),
         _ => println!("usage: mqharness explore|replay ..."),
     }
